@@ -1,7 +1,7 @@
 (** Dispatch2.v — entry points of the models added after Dispatch.v (DER/token keys, hashes, key blinding, ...).
     [dispatch2] is what the OCaml runner calls; unknown names fall through to [dispatch]. *)
 From Coq Require Import Strings.String.
-From PatVerif Require Import Base.GoSem Model.Dispatch Model.TokenKey Model.Codecs Model.Derive Model.Ed25519 Model.TokenVerify Model.Ecdsa Model.BatchIssuer Base.Mem Base.Conc Model.Frontends.
+From PatVerif Require Import Base.GoSem Model.Dispatch Model.TokenKey Model.Codecs Model.Derive Model.Ed25519 Model.TokenVerify Model.Ecdsa Model.BatchIssuer Base.Mem Base.Conc Model.Frontends Model.RateLimited.
 Open Scope N_scope.
 
 Definition out_z (z : Z) : list (list byte) :=
@@ -166,6 +166,11 @@ Definition dispatch_fin (name : list byte) (a : list (list byte)) : option (list
     Some (out_tok (fin1 (fun _ => flag (arg a 2)) (fun _ => flag (arg a 3)) (fun _ _ => opt_arg (arg a 4)) (arg a 0) (arg a 1)))
   else if is name "fin2_full" then
     Some (out_tok (fin2 (fun _ => opt_arg (arg a 2)) (fun _ _ => flag (arg a 3)) (arg a 0) (arg a 1)))
+  else if is name "t3_response_keys" then
+    let '(k, n) := response_keys (arg a 0) (arg a 1) (arg a 2) in Some [k; n]
+  else if is name "fin3_full" then
+    (* input encap resp (flag||blind signature from AES-GCM open) (flag||signature from the RSA finalization) pss_ok *)
+    Some (out_tok (fin3 (fun _ _ => opt_arg (arg a 3)) (fun _ => opt_arg (arg a 4)) (fun _ _ => flag (arg a 5)) (arg a 1) (arg a 0) (arg a 2)))
   else if is name "fin5_full" then
     let outs := match opt_arg (arg a 4) with Some o => Some (chunks_of 64 (length o) o) | None => None end in
     Some (match fin5 (fun _ => flag (arg a 2)) (fun _ => flag (arg a 3)) (fun _ _ => outs) (skipn 5 a) (arg a 1) with
